@@ -241,6 +241,7 @@ func main() {
 	run.Floor("shutdown_nil_checked", int64(n/3))
 	run.Floor("drain_expiry_checked", int64(n/20))
 	run.Floor("forwarder_variant_runs", 3)
+	run.Floor("silent_pp_clients_closed", 2)
 	wiring.Run(run, "C11")
 	run.Finish()
 }
@@ -684,17 +685,37 @@ func forwarderVariant(run *lib.Run, hb *lib.Heartbeat, root *lib.RNG) {
 		}
 		r := root.Sub(uint64(idx))
 		g := newGateOrigin()
+		// every other run listens with the PROXY protocol: clients announce themselves first, and
+		// some never do (their connections are ended by the header timeout before the shutdown)
+		pp := i%2 == 1
 		p := lib.MustProxy(lib.ProxyOpts{Cfg: func(cfg *forwarder.HTTPProxyConfig) {
 			// idle keep-alive connections are only closed by Close() after the drain timeout
 			cfg.ShutdownTimeout = 2500 * time.Millisecond
+			if pp {
+				cfg.ProxyProtocolConfig = forwarder.DefaultProxyProtocolConfig()
+				cfg.ProxyProtocolConfig.ReadHeaderTimeout = 300 * time.Millisecond
+			}
 		}, Transport: func(tc *forwarder.HTTPTransportConfig) {
 			tc.RedirectFunc = func(network, address string) (string, string) { return network, g.o.Addr }
 		}})
-		run.Case(idx, "forwarder-run-cancel", nil)
+		run.Case(idx, fmt.Sprintf("forwarder-run-cancel|pp=%v", pp), nil)
 		nHeld, nIdle := r.Range(1, 6), r.Range(0, 5)
 		var held, idle []*conn
+		var silent []*lib.Stream
+		if pp {
+			for k := 0; k < r.Range(1, 4); k++ {
+				st, _ := lib.Dial(p.Addr)
+				if k%2 == 1 {
+					st.C.Write([]byte("PROXY TCP4 198.51."))
+				}
+				silent = append(silent, st)
+			}
+		}
 		for k := 0; k < nHeld; k++ {
 			st, _ := lib.Dial(p.Addr)
+			if pp {
+				st.C.Write([]byte("PROXY TCP4 198.51.100.7 127.0.0.1 40000 3128\r\n"))
+			}
 			c := &conn{id: fmt.Sprintf("f%dh%d", idx, k), st: st}
 			c.gate = g.gate(c.id)
 			fmt.Fprintf(st.C, reqFmt, "/held", c.id)
@@ -702,12 +723,21 @@ func forwarderVariant(run *lib.Run, hb *lib.Heartbeat, root *lib.RNG) {
 		}
 		for k := 0; k < nIdle; k++ {
 			st, _ := lib.Dial(p.Addr)
+			if pp {
+				st.C.Write([]byte("PROXY TCP4 198.51.100.8 127.0.0.1 40001 3128\r\n"))
+			}
 			fmt.Fprintf(st.C, reqFmt, "/warm", "w")
 			st.ReadResponse("GET", 10*time.Second)
 			idle = append(idle, &conn{st: st})
 		}
 		for _, c := range held {
 			g.waitSeen(c.id, 10*time.Second)
+		}
+		for _, st := range silent {
+			if _, err := st.WaitEOF(5 * time.Second); err == nil {
+				run.Count("silent_pp_clients_closed", 1)
+			}
+			st.Close()
 		}
 		stopped := make(chan error, 1)
 		go func() { stopped <- p.Stop() }()
